@@ -379,7 +379,7 @@ func (s *c04Scenario) world() *ocspWorld {
 	s.once.Do(func() {
 		var urls []string
 		for i := 0; i < s.nURL; i++ {
-			urls = append(urls, fmt.Sprintf("http://r%d.ocsp.test/ocsp", i))
+			urls = append(urls, fmt.Sprintf("http://r%d.ocsp.test/ocsp", urlLabel[i])) // names not monotone in the position
 		}
 		s.w = newOCSPWorld(s.issuerKey, s.serial, urls, nil)
 	})
@@ -432,7 +432,7 @@ func (s *c04Scenario) body(c *mc.Ctx) {
 		}
 		idx := -1
 		for i := range w.urls {
-			if raw.URL.Host == fmt.Sprintf("r%d.ocsp.test", i) {
+			if raw.URL.Host == fmt.Sprintf("r%d.ocsp.test", urlLabel[i]) {
 				idx = i
 			}
 		}
